@@ -118,7 +118,7 @@ PLAN = {
                   "k<=2 for the 14 smaller scenarios, k<=1 for the rest", "k<=3 / k<=2"),
     "C11": dict(_qplan("dispatch_after with past/now/+1ms/+1s deadlines on the three clocks; periodic, one-shot, re-armed, replaced-before-activation, re-set while armed (same clock and across clocks), suspended and concurrent timer populations on virtual clocks "
                        "('timer expires first' is a deviation)",
-                       "end-to-end: k<=1 for all 28 programs, k<=2 for 4; heap: BFS fixpoint with <=4 live timers + prefilled sizes 0..40 x depth-2 suffixes (depth 3 at segment boundaries)",
+                       "end-to-end: k<=1 for all 29 programs, k<=2 for 4; heap: BFS fixpoint with <=4 live timers + prefilled sizes 0..40 x depth-2 suffixes (depth 3 at segment boundaries)",
                        "end-to-end: k<=2; heap: BFS fixpoint with <=5 live timers + prefilled sizes 0..40 x depth-3 suffixes"),
                 rule="end-to-end: one evaluation = one execution of a timer program under one schedule on virtual clocks; structural: one evaluation = one operation sequence on the real double heap "
                      "checked against a sorted-multiset model (count, both minima, back-pointers, heap order in both interleaved heaps)"),
@@ -258,7 +258,7 @@ def _tasks_for(pid, tier):
         return sx("time_c12")
     if pid == "C11":
         after = list(range(0, 12))
-        other = list(range(12, 23)) + [26, 27]      # 26, 27: a stale fire (suspended source / busy target queue) dropped by set_timer
+        other = list(range(12, 23)) + [26, 27, 28]      # 28: periodic timer with a lagging handler; 26, 27: a stale fire (suspended source / busy target queue) dropped by set_timer
         big = [23, 24, 25]          # re-set while armed with other timers pending (incl. across clocks): ~10^3 schedules at k=1, ~5*10^5 at k=2
         if q:
             return sx("heap_c11") + ds("timer", 1, after + other + big, jobs=5) + ds("timer", 2, [2, 6, 10, 17], jobs=6)
